@@ -53,8 +53,10 @@ CLAIMS = {
   "In Reader.Read the call r.frame.Read is an arbitrary io.Reader with an extended frame and three ASSUMED facts "
   "(listed in evidence notes; DESIGN 10.1), so byte-exact reassembly through the whole chain in one theorem is NOT "
   "claimed - it is the composition of the separately proved CipherReader/UTF8Reader/LimitedReader contracts. "
-  "ReadMessage/readData helpers, extensions and OnContinuation/OnIntermediate callbacks are not covered. io.Copy into "
-  "ioutil.Discard is a trusted contract."),
+  "Of the ReadMessage/readData helpers only ReadMessage's collector of intermediate control frames is under contract "
+  "(each collected message owns a fresh copy of exactly the frame's payload); extensions beyond one and the "
+  "OnContinuation/OnIntermediate callbacks of NextFrame are not covered. io.Copy into ioutil.Discard and ioutil.ReadAll "
+  "are trusted contracts."),
  "C05": ("proof",
   "Proof that the first offending header is refused: readHeader+CheckHeader reject exactly the RFC-violating headers, "
   "and NextFrame rejects continuation-without-start and data-frame-inside-fragmented-message at that frame, leaving "
